@@ -10,7 +10,7 @@ CHECKS = {
    note="Values come from a finite menu; in the BFS masks/temp blocks name real scalars only; preservation under coordinate operations is not claimed for a variable with exactly one component tied to another variable (no other coordinate form exists); RNG answers scripted; equal canonical states merged (canonical form = every field the manager reads).",
    technique="explicit-state BFS over operation histories on the implementation, reference relation + invariants in every state"),
  "C17": dict(level="fault_enumeration", ref="4-C17",
-   text="(0 faults) explicit-state BFS to depth 2 (thorough: larger alphabet and six models) over histories of read-only computations (partial weights, interference weights, fit fractions old/new/no-grad, exhausted and abandoned factor iterations, density evaluations), override blocks with bodies and nested blocks (every ordered pair of the 10 block kinds from the initial state), and persistent selection/parameter operations, on real AmplitudeModels (eager; tf.function evaluated and traced before the history starts; a four-body group in which two chains share a decay); (1 fault) an exception at every amplitude-evaluation seam call / block body of every read-only operation from every state up to the fault depth. Post-condition after every execution: parameters bitwise, active chains, masks, factor masks, registry, and probe-event density through first-call, cached-call and new-object paths equal those of a reference world that executed only the persistent operations.",
+   text="(0 faults) explicit-state BFS to depth 2 (thorough: larger alphabet and five models) over histories of read-only computations (partial weights, interference weights, fit fractions old/new/no-grad, exhausted and abandoned factor iterations, density evaluations), override blocks with bodies and nested blocks (every ordered pair of the 10 block kinds from the initial state), and persistent selection/parameter operations, on real AmplitudeModels (eager; tf.function evaluated and traced before the history starts; a four-body group in which two chains share a decay); (1 fault) an exception at every amplitude-evaluation seam call / block body of every read-only operation from every state up to the fault depth. Post-condition after every execution: parameters bitwise, active chains, masks, factor masks, registry, and probe-event density through first-call, cached-call and new-object paths equal those of a reference world that executed only the persistent operations.",
    note="Faults are Python exceptions at amplitude evaluation seams and block bodies; a failing restore assignment is not injected. Three-body groups and one four-body group (one level less deep; thorough adds a traced model with a second resonance per slot and an untraced tf.function model). Depth 3 (~3e5 executions) is available through C17_DEPTH but not registered.",
    technique="deviation-bounded fault enumeration + explicit-state BFS on the implementation with a differential reference world"),
  "C12": dict(level="exploration", ref="4-C12",
